@@ -181,6 +181,25 @@ PROPS['C10'].update({
     'level_note': 'GUI form is necessary (a bare `position` line followed by a real one exits: gui_form_needed - not valid UCI). `position fen` with fewer than six fields silently means startpos in driver and in setup alike (excluded by GUI form). strings.Split/Fields/HasPrefix are modelled. Trusted: Coq kernel, harness.',
 })
 
+PROPS['C15'] = _board('C15', ['C15'],
+    'analyses with depth limit 1..4(5) and the table on/off on curated endings and random kings+1..4-men positions, every PV drained from the channel; 40 (quick) / 800 (thorough) unbounded analyses halted after 0-3 ms (a quarter immediately).',
+    'Reported stream compared with the model iteration loop (subsequence ending in the same final iteration: the one-slot channel keeps only the latest unread PV) and each reported score with the reference minimax at its depth; analysis ends at the limit or at a forced mate within the depth; Halt returns depth >= 1, a completed iteration (equal to the direct search), at least as deep as everything reported before the halt; Limits compared on a grid (Impl lemma).')
+PROPS['C15'].update({
+    'coq_targets': ['Properties/C15.vo', 'Impl/ImplBoard.vo', 'Impl/ImplMisc.vo'],
+    'obligation_files': ['Properties/C15.v', 'Lemmas/IterateLemmas.v', 'Lemmas/SearchctlLemmas.v', 'Impl/ImplMisc.v', 'Impl/ImplBoard.v'],
+    'level': 'proof',
+    'level_text': 'Proof: the iteration loop on the real board model reports depths 1,2,3,... in order, each entry being exactly the direct full-window search at that depth on the threaded board/table, and ends exactly at the depth limit or the first depth with a forced mate within the depth; the hard time limit never exceeds the remaining clock (int64 Duration arithmetic with truncating division) for clocks >= 0 and moves-to-go < 2^31. The halting protocol (Halt waits for depth 1, returns a completed iteration at least as deep as everything reported before the halt) is proved on the driver transition system (C16, in progress) and checked on the implementation by halting real analyses at random instants. ',
+    'level_note': 'A consumer that falls behind misses intermediate depths (one-slot channel, latest wins): the property is read as "what is reported is in increasing order, each equal to the direct search, and the final iteration is always delivered". Wall-clock behaviour of time.AfterFunc and the soft limit is not modelled. Trusted: Coq kernel, harness.',
+})
+PROPS['C04'] = _board('C04', ['C04'],
+    'sequential: 30 (quick) / 600 (thorough) UCI sessions on the real driver (position / go depth d / repeated go / ucinewgame, table on and off, static and quiescence leaves), each go run to completion; concurrent: randomly timed scripts against the four bundled engine configurations (hash/noise/book on and off): go depth, go infinite + stop, movetime, clock, superseding position+go, stale movetime timer, junk lines, quit / end of input while searching - run under the race detector.',
+    'Sequential: info lines and bestmove compared with the end-to-end model (UciSeq.go_depth: fork, iterative deepening with the engine table, bestmove = head of the last PV); bestmove legal in the specification game of the last position line, 0000 only without legal moves, exactly one per go. Concurrent: every owed go answered exactly once within a timeout, never twice, answers legal in the current position.')
+PROPS['C04'].update({'stress': ['C04']})
+PROPS['C16'] = _board('C16', [],
+    'randomly timed command scripts (isready, stop, new position / go / ucinewgame during a search, junk and empty lines, quit and end of input while searching) against the real driver with the four bundled engine configurations, under the race detector; positions alternate the side to move so that an answer computed for a superseded search is recognisably illegal.',
+    'No panic, no data race, output closed within a timeout after quit / end of input, one readyok per isready, no bestmove that is illegal in the position last set up (stale), no duplicate answers.')
+PROPS['C16'].update({'stress': ['C16']})
+
 # Every listed property is claimed; reasons would go here otherwise.
 NOT_APPLICABLE = [
     {'property_id': pid, 'reason': 'check not built yet in this session (work in progress; see DESIGN.md section 9)'}
